@@ -89,6 +89,9 @@ XVerdict(e) ==
      ELSE IF c.CR # RecOf(e, CX, CY) THEN R_("MatrixDef", "CrossRecurrencePlot.recurrence_matrix")
      ELSE IF ~Close(c.crr, FxDiv(Total(c.CR), Len(CX) * Len(CY), 1000000), Tol)
           THEN R_("RateDef", "cross_recurrence_rate")
+     \* (without embedding the cross plot keeps the series in double precision, where the level 2^27 is exact; the
+     \* embedding is stored in single precision, which cannot hold such a level - nothing is demanded there)
+     ELSE IF e.emb = 0 /\ c.CRfar # c.CR THEN R_("Translation", "CrossRecurrencePlot.recurrence_matrix(level 2^27)")
      ELSE IF c.lines_exc # "NotImplementedError" THEN R_("RQAApplicable", "CrossRecurrencePlot.diagline_dist")
      ELSE IF n.exc # "" THEN R_("Applicable", "InterSystemRecurrenceNetwork:" \o n.exc)
      ELSE IF ~(n.Nx = Len(X) /\ n.Ny = Len(Y) /\ n.N = Len(X) + Len(Y)) THEN R_("Sizes", "InterSystemRecurrenceNetwork.N_x/N_y/N")
